@@ -130,6 +130,7 @@ static std::pair<std::string, std::string> run_scn(const Scn &s) {
     if (getenv("C16_TRACE")) { for (auto &c : ss.result().calls) { printf("call %c len=%zu rc=%d consumed=%zu in=%s out=%s ntx=%zu\n", c.kind, c.len, c.rc, c.consumed, c.in_state, c.out_state, c.ntx); for (size_t j = c.ev_begin; j < c.ev_end; j++) printf("    cb %s tx%d\n", vdrv::hook_name(ss.result().events[j].hook), ss.result().events[j].tx); } for (auto &t : tags.completes) printf("complete %s\n", t.c_str()); }
     vdrv::Result &r = ss.finish(); g_tags = nullptr;
     for (auto &v : r.violations) if (v.rfind("C16:", 0) == 0) fail(v.substr(4), "monitor: " + v);
+    if (A.mode == "c09") for (auto &v : r.violations) if (v.rfind("C09:", 0) == 0) fail("monitor:" + v.substr(4), "API-contract monitor: " + v);
     if (livelock) fail("handover_livelock", "DATA_OTHER ping-pong without progress");
     if (err.empty()) {
         if (s.expect_tunnel) {
@@ -214,7 +215,7 @@ static void campaign() {
             if (same_chunk || near) g_stats.nt(vc::fnv1a(text));
             g_stats.sample_sparse(text, g_stats.evaluations);
         }
-        if (!r.first.empty()) { std::string sig = "C16:" + r.first; if (A.is_known(sig)) { if (!rcx::shrinking()) g_stats.attributed[sig]++; return {}; } return rcx::Fail{sig, text, r.second}; }
+        if (!r.first.empty()) { std::string sig = (A.mode == "c09" ? std::string("C09:resume_point_or_progress:") : std::string("C16:")) + r.first; if (A.is_known(sig)) { if (!rcx::shrinking()) g_stats.attributed[sig]++; return {}; } return rcx::Fail{sig, text, r.second}; }
         return {};
     });
 }
@@ -231,7 +232,7 @@ static int replay(const std::string &path) {
     }
     auto r = run_scn(s);
     if (r.first.empty()) { printf("REPLAY-OK\n"); return 0; }
-    printf("REPLAY-FAIL sig=C16:%s\n%s\n", r.first.c_str(), r.second.c_str()); return 1;
+    printf("REPLAY-FAIL sig=%s%s\n%s\n", A.mode == "c09" ? "C09:resume_point_or_progress:" : "C16:", r.first.c_str(), r.second.c_str()); return 1;
 }
 
 int main(int argc, char **argv) {
